@@ -1,6 +1,7 @@
 import RexModel.Async.Machine
 import RexModel.Async.Guard
 import RexModel.Async.Ownership
+import RexModel.Async.Calls
 
 /-! # C02 — simulated-clock episodes are deterministic across thread schedules and speed
 
@@ -67,6 +68,64 @@ theorem C02_machine_ownership (cfg : Cfg T) :
     (∀ n k r, consOf cfg (.node n k) = some r → r.tag ∈ consTags (.inl k)) ∧
     (∀ c k r, consOf cfg (.conn c k) = some r → r.tag ∈ consTags (.inr k)) :=
   ⟨prodOf_tag_node cfg, prodOf_tag_conn cfg, consOf_tag_node cfg, consOf_tag_conn cfg⟩
+
+/-- a state in which no rule is enabled admits only the empty run -/
+theorem run_of_terminal {S R : Type} (M : Sys S R) {s s' : S} {σ : List R} (hterm : ∀ r, ¬ M.guard r s)
+    (h : Run M s σ s') : σ = [] ∧ s' = s := by
+  cases h with
+  | nil => exact ⟨rfl, rfl⟩
+  | cons g _ => exact absurd g (hterm _)
+
+/-- a system whose rules are additionally gated by a predicate `P r` -/
+def restrict {S R : Type} (M : Sys S R) (P : R → S → Prop) : Sys S R :=
+  { guard := fun r s => M.guard r s ∧ P r s, fire := M.fire, Inv := M.Inv }
+
+/-- gating every rule by a predicate that no *other* rule can change keeps persistence and commutation -/
+theorem restrict_good {S R : Type} (M : Sys S R) (P : R → S → Prop) (G : Good M)
+    (frame : ∀ s r r', M.Inv s → M.guard r s → r ≠ r' → (P r' (M.fire r s) ↔ P r' s)) : Good (restrict M P) where
+  inv s r hi g := G.inv s r hi g.1
+  persist s r r' hi g g' hne := ⟨G.persist s r r' hi g.1 g'.1 hne, (frame s r r' hi g.1 hne).mpr g'.2⟩
+  commute s r r' hi g g' hne := G.commute s r r' hi g.1 g'.1 hne
+
+/-- every run of the gated system is a run of the original one -/
+theorem restrict_run {S R : Type} (M : Sys S R) (P : R → S → Prop) {s s' : S} {σ : List R}
+    (h : Run (restrict M P) s σ s') : Run M s σ s' := by
+  induction h with
+  | nil s => exact .nil s
+  | cons g _ ih => exact .cons g.1 ih
+
+/-- the execution bound of an episode: node `n` is scheduled at most `maxTicks n` times (what ends a real episode: the supervisor's
+last step stops every node's scheduling) -/
+def tickBound (maxTicks : Nat → Nat) : Rule → MSt T → Prop
+  | .sched n, s => (s.priv (.sched n)).tick < maxTicks n
+  | _, _ => True
+
+def boundedSys (cfg : Cfg T) (maxTicks : Nat → Nat) : Sys (MSt T) Rule := restrict (machine cfg).toNet.sys (tickBound maxTicks)
+
+theorem bounded_good (cfg : Cfg T) (maxTicks : Nat → Nat) : Good (boundedSys cfg maxTicks) := by
+  apply restrict_good _ _ (machine_good cfg)
+  intro s r r' _ _ hne
+  cases r' <;> simp only [tickBound]
+  rw [show ((machine cfg).toNet.sys.fire r s) = (machine cfg).toNet.fire r s from rfl,
+    fire_priv_other (machine cfg).toNet r _ s (Ne.symm hne)]
+
+/-- **Completed episodes are schedule independent as a whole**: two interleavings of an episode in which every node is scheduled at
+most `maxTicks n` times, both continued until no handler of any thread can fire any more, end in the *same* machine state — every
+record, every private field, every queue. A machine with a free-running node never runs out of enabled rules by itself, which is why
+the statement is about the bounded system; the executable model (`Driver/Async.lean`, `runBounded`) is this bounded system under a
+scheduling policy and stops exactly when no rule is enabled, so each of its completed executions is an instance of the hypotheses. -/
+theorem C02_completed_episodes_equal (cfg : Cfg T) (maxTicks : Nat → Nat) {σ₁ σ₂ : List Rule} {s₁ s₂ : MSt T}
+    (r1 : Run (boundedSys cfg maxTicks) (initState cfg) σ₁ s₁)
+    (r2 : Run (boundedSys cfg maxTicks) (initState cfg) σ₂ s₂)
+    (t1 : ∀ r, ¬ (boundedSys cfg maxTicks).guard r s₁) (t2 : ∀ r, ¬ (boundedSys cfg maxTicks).guard r s₂) :
+    s₁ = s₂ := by
+  obtain ⟨τ₁, τ₂, s', a, b⟩ := confluent (bounded_good cfg maxTicks) trivial r1 r2
+  rw [← (run_of_terminal _ t1 a).2, ← (run_of_terminal _ t2 b).2]
+
+/-- … and such an episode is an execution of the unbounded machine, so everything proved about `Run (machine cfg)` holds of it -/
+theorem C02_bounded_is_run (cfg : Cfg T) (maxTicks : Nat → Nat) {σ : List Rule} {s : MSt T}
+    (r : Run (boundedSys cfg maxTicks) (initState cfg) σ s) : Run (machine cfg).toNet.sys (initState cfg) σ s :=
+  restrict_run _ _ r
 
 /-- non-vacuity: the initial state of any configuration admits the empty run, and a node with a token can fire -/
 example (cfg : Cfg T) : Run (machine cfg).toNet.sys (initState cfg) [] (initState cfg) := .nil _
